@@ -32,13 +32,14 @@ def nontrivial(c):
 
 def _case(rng, heavy_ok=False, **kw):
     kw.setdefault('n_case_args', (1, 4)); kw.setdefault('n_cases', (1, 8)); kw.setdefault('n_combo_args', (0, 2))
+    kw.setdefault('mixed', True)
     sw = sweeps.gen_sweep(rng, **kw)
     kind = rng.choice(KINDS)
     k = sweeps.n_outputs(kind)
     via = rng.choice(['combo_runner', 'combo_runner', 'case_runner'])
     c = {'sweep': sw, 'kind': kind, 'strategy': sweeps.gen_strategy(rng, heavy_ok), 'via': via,
          'split': bool(k) and rng.random() < 0.6, 'flat': via == 'case_runner' or rng.random() < 0.2,
-         'spelling': rng.choice(['dict', 'tuple']) if via == 'case_runner' else 'dict'}
+         'spelling': rng.choice(['dict', 'dict_anyorder', 'tuple']) if via == 'case_runner' else rng.choice(['dict', 'dict_anyorder'])}
     if 'ds' in kind:
         c['strategy'] = {'name': rng.choice(['seq', 'shuffle_int']), 'shuffle': rng.randint(1, 30)}
         if c['strategy']['name'] == 'seq': c['strategy'].pop('shuffle')
